@@ -141,7 +141,4 @@ PropExport == [][Last.t = "export" =>
                    /\ \A e \in Last.cfg : (Last.peer \in e.peers /\ e.name \notin {Wildcard, ConsulService}) => e.name \in Last.offered]_vars
 (* idempotence: applying the same update twice changes nothing the second time *)
 PropIdempotent == [][(IsUpd \/ IsList) => Apply(st', Last) = st']_vars
-(* vacuity guards: these must be VIOLATED (checked by the driver with a separate cfg) *)
-NeverSharedKept == [][~(IsUpd /\ \E n \in {s.node : s \in Stored(st, Last.peer, Last.svc)} \ SnapNodes(Last.snap) :
-                                    \E s \in st'.svcs : s.peer = Last.peer /\ s.node = n)]_vars
 =============================================================================
